@@ -82,7 +82,7 @@ def slim_run(run, at, keep=120):
 
 
 def validate(rep, pid, comp, module, cfg, trace, part, is_hit, constants=None):
-    r = vlib.validate_traces(pid, module, cfg, trace, constants=constants)
+    r = vlib.validate_traces(pid, module, cfg, trace, constants=constants, nchunks=12, max_violations=40)
     rep.add_traces(part, r["runs"], common.count_nontrivial(trace, is_hit), r["events"])
     with open(trace) as f:
         lines = [l for _, l in zip(range(6), f)]
